@@ -861,6 +861,12 @@ func (w *World) retireFailedDest(op *Op, panicked bool) {
 		if panicked {
 			rs = append(rs, op.R)
 		}
+	case "Reshape", "T", "Transpose", "RollAxis":
+		// in-place changes of the access pattern that refuse half way (Reshape sets the shape and then finds
+		// that it does not fit the storage) leave their own operand undefined
+		if op.Name != "RollAxis" || op.Mode == "unsafe" {
+			rs = append(rs, op.In[0])
+		}
 	}
 	switch op.Mode {
 	case "reuse", "incr", "same-reuse":
